@@ -24,6 +24,7 @@ Step(e) ==
   CASE e.a = "Deliver"    -> Deliver(e.n)
     [] e.a = "Disconnect" -> Disconnect
     [] e.a = "AppWrite"   -> AppWrite
+    [] e.a = "AppClose"   -> AppClose
     [] OTHER -> FALSE
 
 FailAts(s) == IF Success(s) THEN {8} ELSE 2..(IF RLen(s) > 8 THEN RLen(s) ELSE 8)
